@@ -37,23 +37,25 @@ type flOp struct {
 }
 
 type flWorld struct {
-	n        int
-	mem      []byte
-	views    [2]*bufferList
-	ghost    []byte // ghost[off]: owner of the slot at off (0 free, 0xEE environment, tid+1)
-	tick     *uint32
-	nheld    *uint32
-	free0    int
-	perm     [flMaxN]uint32 // slot offsets in chain order, then the environment-held ones
-	ops      [flMaxThr][flMaxOps]flOp
-	held     [flMaxThr][flMaxOps]*bufferSlice
-	heldSig  [flMaxThr][flMaxOps]uint32
-	sizeSeen [flMaxThr][flMaxOps]int32
-	npop     [flMaxThr]int
-	npush    [flMaxThr]int
-	forcePop bool
-	jsel     [flMaxThr][flMaxOps]uint8  // which held slice a recycle step returns (symbolic, drawn up front)
-	sigs     [flMaxThr][flMaxOps]uint32 // payload signature written by the holder (symbolic, drawn up front)
+	n         int
+	mem       []byte
+	views     [2]*bufferList
+	ghost     []byte // ghost[off]: owner of the slot at off (0 free, 0xEE environment, tid+1)
+	tick      *uint32
+	nheld     *uint32
+	free0     int
+	perm      [flMaxN]uint32 // slot offsets in chain order, then the environment-held ones
+	ops       [flMaxThr][flMaxOps]flOp
+	held      [flMaxThr][flMaxOps]*bufferSlice
+	heldSig   [flMaxThr][flMaxOps]uint32
+	sizeSeen  [flMaxThr][flMaxOps]int32
+	npop      [flMaxThr]int
+	npush     [flMaxThr]int
+	forcePop  bool
+	forcePush bool
+	chainMark bool                       // recycled slices carry hasNext + a link, as the elements of a multi-slice message do
+	jsel      [flMaxThr][flMaxOps]uint8  // which held slice a recycle step returns (symbolic, drawn up front)
+	sigs      [flMaxThr][flMaxOps]uint32 // payload signature written by the holder (symbolic, drawn up front)
 }
 
 func flSetup(n int, free int) *flWorld {
@@ -135,7 +137,7 @@ func (w *flWorld) step(t, k int, l *bufferList) {
 	op := &w.ops[t][k]
 	// the operation kind is a shape variable (concrete per case); sequences that recycle more
 	// than they allocated are not part of the space
-	isPop := w.forcePop || vfShape("op", 0, 1) == 1
+	isPop := w.forcePop || (!w.forcePush && vfShape("op", 0, 1) == 1)
 	if isPop {
 		w.npop[t]++
 	} else {
@@ -191,6 +193,11 @@ func (w *flWorld) step(t, k int, l *bufferList) {
 	w.ghost[off] = 0
 	*w.nheld = *w.nheld - 1
 	vfAtomicEnd()
+	if w.chainMark {
+		// the holder had linked this slice into a message chain (linkedBuffer.done does that);
+		// recycleBuffers pushes every element with the link still in its header
+		s.bufferHeader.linkNext(w.perm[w.n-1])
+	}
 	op.t0 = atomic.AddUint32(w.tick, 1)
 	l.push(s)
 	op.t1 = atomic.AddUint32(w.tick, 1)
@@ -407,6 +414,47 @@ func flHook(prop string) {
 	vfAssume(ran) // a cut beyond the victim's accesses is not a stall
 	w.check(2, K, prop)
 }
+
+// family "hookpush" (sequential): the victim is a RECYCLE that stalls after exactly `cut` of its
+// accesses (e.g. between its tail CAS and its linkNext). Before it the adversary performs P
+// operations, during the stall K operations. With mark=1 every recycled slice carries a chain link
+// in its header (hasNext + next), as each element of a multi-slice message does when
+// recycleBuffers pushes it: push has to clear it.
+func flHookPush(prop string) {
+	n := vfShape("slots", 3, flMaxN)
+	free := vfShape("free", 2, n)
+	P := vfShape("preops", 0, 3)
+	K := vfShape("advops", 1, 5)
+	cut := vfShape("cut", 0, 24)
+	w := flSetup(n, free)
+	vfInfeasibleOK()
+	w.chainMark = vfShape("mark", 0, 1) == 1
+	for k := 0; k < P; k++ {
+		w.step(1, k, w.views[1])
+	}
+	w.forcePop = true
+	w.step(0, 0, w.views[0]) // the victim allocates (not hooked)
+	w.forcePop = false
+	vfAssume(w.ops[0][0].ok)
+	ran := false
+	vfStallHook(w.mem, cut, func() {
+		ran = true
+		w.forcePush = false
+		for k := 0; k < K; k++ {
+			w.step(1, P+k, w.views[1])
+		}
+		w.forcePush = true
+	})
+	w.forcePush = true
+	w.step(0, 1, w.views[0]) // the victim recycles it: hooked
+	w.forcePush = false
+	vfStallHookOff()
+	vfAssume(ran)
+	w.check(2, P+K, prop)
+}
+
+func H_C01_hookpush() { flHookPush("C01") }
+func H_C02_hookpush() { flHookPush("C02") }
 
 func H_C01_hook() { flHook("C01") }
 func H_C02_hook() { flHook("C02") }
